@@ -517,3 +517,32 @@ Lemma same_outcome_abort_refuted :
   let g := [(1, []); (2, [])] in let c := mkCfg [1; 2] [] in
   statuses (settle 16 c (restart (iter 2 c (init g)))) <> statuses (settle 16 c (init g)).
 Proof. vm_compute. discriminate. Qed.
+
+(* ------------------------------------------------------------------ the store: what the persistence assumption buys *)
+Lemma run_events_app : forall c a b s, run_events c s (a ++ b) = run_events c (run_events c s a) b.
+Proof. intros. unfold run_events. apply fold_left_app. Qed.
+
+(* with checkpoints atomic and in order (no stale write) the store always holds the in-memory task list, and a run with
+   crashes is exactly the run of the runner model with restarts: [restart] may be used for a crash *)
+Theorem store_is_memory : forall c evs w, no_stale evs = true -> w_disk w = tasks (w_mem w) ->
+  w_disk (wrun c w evs) = tasks (w_mem (wrun c w evs)) /\
+  w_mem (wrun c w evs) = run_events c (w_mem w) (flat_map erase evs).
+Proof.
+  intros c evs. induction evs as [|e evs IH]; intros w Hs Hd; simpl in *; [split; [assumption | reflexivity]|].
+  destruct e as [ev|old|]; simpl in Hs; try discriminate.
+  - destruct ev; simpl.
+    + destruct (IH (mkW (ensure c (w_mem w)) (tasks (ensure c (w_mem w)))) Hs eq_refl) as [A B]. split; assumption.
+    + destruct (IH (mkW (finish c id (w_mem w)) (tasks (finish c id (w_mem w)))) Hs eq_refl) as [A B]. split; assumption.
+    + apply IH; assumption.
+  - destruct (IH (mkW (reload (w_disk w) (log (w_mem w))) (w_disk w)) Hs eq_refl) as [A B]. split; [assumption|].
+    rewrite B. simpl. unfold restart, persist. rewrite Hd. reflexivity.
+Qed.
+
+(* without it the property fails: the write of the older payload (task 1 Doing) completes after the newer one (Done); after
+   the crash the finished task is run again *)
+Lemma stale_checkpoint_redoes_work :
+  let c := mkCfg [] [] in let w0 := mkW (init [(1, [])]) (tasks (init [(1, [])])) in
+  let w2 := wrun c w0 [WStep EEnsure; WStep (EFinish 1)] in
+  let wf := wrun c w2 [WStale (tasks (w_mem (wrun c w0 [WStep EEnsure]))); WCrash; WStep EEnsure] in
+  status_of (tasks (w_mem w2)) 1 = 4 /\ count 1 false (log (w_mem w2)) = 1 /\ count 1 false (log (w_mem wf)) = 2.
+Proof. vm_compute. repeat split; reflexivity. Qed.
